@@ -2,16 +2,21 @@
 C20 — property theorems.  No bound on arity, argument lists, element values, number of objects or
 history length.
 
-* pair / tuple values: every member-wise operation of the model equals its whole-object spec;
-  element reads never leave the tuple.
+* pair / tuple values: every member-wise operation of the model (a recursion over the element list) equals the
+  `map` / `sum` form of the whole-object spec.  These are bookkeeping identities (the recursion IS a map); their
+  content is "the member-wise expansion treats every element alike, in order"; element reads never leave the tuple.
 * relations: the six pair relations as the header computes them (through `operator<` only) equal
   the lexicographic three-way comparison of [pairs.spec] whenever the element three-way comparison
   is the one synthesised from an asymmetric `<`; for strict total element orders they form a strict
-  total order with its derived relations.  Tuple `==` is list equality for every arity >= 1.
-* tuple_cat of any number (>= 1) of tuples is their concatenation; no read out of range.
-* calls: `invoke`, `reference_wrapper`, `function_ref`, `bind_front`, `not_fn`, `apply` never fail and
-  call the wrapped target exactly once (one log entry: that target, the given arguments and
-  categories), returning its result unchanged.
+  total order with its derived relations.  For `double` elements (NaN unordered) the header's relations equal
+  `std::pair`'s exactly outside the input class `Spec.unorderedPair` and differ on every input inside it.
+  Tuple `==` is list equality for every arity, 0 included.
+* tuple_cat of one or more tuples is their concatenation; no read out of range.
+* calls: `invoke`, `reference_wrapper`, `function_ref`, `bind_front`, `not_fn`, `apply` never fail and their
+  outcome satisfies the predicate `Spec.CalledOnce`: one log entry, for the wrapped target, called through the
+  prescribed object category with the given arguments (a bound `reference_wrapper` stays a wrapper), result handed
+  back unchanged.  The models of these wrappers are transcriptions of one-line headers, so the proofs are a
+  case split; the statements are what is of value.
 * inplace_function: every history refines the abstract owner semantics and never fails.
 -/
 import TetlProofs.C20.Lemmas
@@ -19,6 +24,11 @@ namespace Tetl.C20.Props
 open Tetl Tetl.C20
 
 /-! ## pair / tuple values -/
+
+theorem defaultAll_eq (ks : List EK) : defaultAll ks = Spec.dflt ks := by
+  induction ks with
+  | nil => rfl
+  | cons k t ih => simp [defaultAll, Spec.dflt, ih, List.replicate_succ]
 
 theorem copyAll_eq (t : List El) : copyAll t = Spec.copy t := by
   induction t with
@@ -74,10 +84,10 @@ theorem pair_lt_iff (lt1 : α → α → Bool) (lt2 : β → β → Bool) (a b :
 
 /-- All six relations of the header equal the C++20 definition through the three-way comparison, for every
     element type whose three-way comparison is synthesised from an asymmetric `<` (every type without
-    unordered values).  PARTIAL: the excluded input class is "the element three-way comparison can answer
-    `unordered`" (floating-point NaN); there the header differs from `std::pair`, see
-    `pair_rels_unordered_counterexample` and the known finding F-C20-pair-rel-unordered. -/
-theorem pair_rels_eq_partial (eq1 : α → α → Bool) (eq2 : β → β → Bool) {lt1 : α → α → Bool} {lt2 : β → β → Bool}
+    unordered values: `int`, the instrumented classes).  This theorem does not speak about element types whose
+    three-way comparison is NOT the synthesised one (`double`: `Spec.dCmp ≠ Spec.synth3 Spec.dLt` on NaN); for
+    those see `pair_rels_dbl_partial`.  (Formerly named `pair_rels_eq_partial`; statement unchanged.) -/
+theorem pair_rels_eq_synth3 (eq1 : α → α → Bool) (eq2 : β → β → Bool) {lt1 : α → α → Bool} {lt2 : β → β → Bool}
     (h1 : Asymm lt1) (h2 : Asymm lt2) (a b : α × β) :
     Spec.modelRels eq1 eq2 lt1 lt2 a b = Spec.pairRels eq1 eq2 (Spec.synth3 lt1) (Spec.synth3 lt2) a b := by
   have a1 := h1 a.1 b.1
@@ -91,11 +101,45 @@ theorem pair_rels_eq_partial (eq1 : α → α → Bool) (eq2 : β → β → Boo
 example : Asymm (fun a b : Int => decide (a < b)) := by
   intro x y h; simp at h ⊢; omega
 
-/-- For elements with unordered values (NaN) the header's relations are not the C++20 ones:
-    `(NaN, 1) < (1, 2)` is true for the header, false for `std::pair` (known finding F-C20-pair-rel-unordered). -/
+/-- `double` elements, exact form: the header's six relations equal those of `std::pair<double,double>` (through
+    `<=>` with `partial_ordering`) on an input **iff** the input is outside the class `Spec.unorderedPair`. -/
+theorem pair_rels_dbl_iff (a b : Int × Int) :
+    Spec.modelRels Spec.dEq Spec.dEq Spec.dLt Spec.dLt a b = Spec.pairRels Spec.dEq Spec.dEq Spec.dCmp Spec.dCmp a b
+      ↔ Spec.unorderedPair a b = false := by
+  obtain ⟨a1, a2⟩ := a
+  obtain ⟨b1, b2⟩ := b
+  simp only [Spec.modelRels, Spec.pairRels, pairEq, pairNe, pairLt, pairLe, pairGt, pairGe, Spec.pairCmp3, Spec.dCmp,
+    Spec.dLt, Spec.dEq, Spec.unorderedPair, Spec.NaN]
+  by_cases h1 : a1 = 9 <;> by_cases h2 : b1 = 9 <;> by_cases h3 : a2 = 9 <;> by_cases h4 : b2 = 9 <;>
+  rcases tri_facts a1 b1 with ⟨h, hx, hy, hz⟩ | h | ⟨h, hx, hy, hz⟩ <;>
+  rcases tri_facts a2 b2 with ⟨g, gx, gy, gz⟩ | g | ⟨g, gx, gy, gz⟩ <;>
+  first
+    | omega
+    | (subst_vars; simp [*, Spec.Ord3.isLt, Spec.Ord3.isLe, Spec.Ord3.isGt, Spec.Ord3.isGe])
+
+/-- PARTIAL (known finding F-C20-pair-rel-unordered): for `double` elements the header's relations are the C++20
+    ones on every input outside the class "the three-way comparison of the two pairs is unordered" — the extra
+    hypothesis is exactly that class, the predicate `classify()` of checks/props/c20.py recomputes per case. -/
+theorem pair_rels_dbl_partial (a b : Int × Int) (h : Spec.unorderedPair a b = false) :
+    Spec.modelRels Spec.dEq Spec.dEq Spec.dLt Spec.dLt a b = Spec.pairRels Spec.dEq Spec.dEq Spec.dCmp Spec.dCmp a b :=
+  (pair_rels_dbl_iff a b).mpr h
+
+example : Spec.unorderedPair (1, Spec.NaN) (0, 1) = false := by decide
+
+/-- The class contains failing inputs: `(NaN, 1) < (1, 2)` is true for the header, false for `std::pair` -/
 theorem pair_rels_unordered_counterexample :
+    Spec.unorderedPair (Spec.NaN, 1) (1, 2) = true ∧
     Spec.modelRels Spec.dEq Spec.dEq Spec.dLt Spec.dLt (Spec.NaN, 1) (1, 2)
       ≠ Spec.pairRels Spec.dEq Spec.dEq Spec.dCmp Spec.dCmp (Spec.NaN, 1) (1, 2) := by decide
+
+/-- ... and only failing inputs: inside the class the header never agrees with `std::pair` -/
+theorem pair_rels_unordered_all_differ (a b : Int × Int) (h : Spec.unorderedPair a b = true) :
+    Spec.modelRels Spec.dEq Spec.dEq Spec.dLt Spec.dLt a b ≠ Spec.pairRels Spec.dEq Spec.dEq Spec.dCmp Spec.dCmp a b := by
+  intro he
+  have := (pair_rels_dbl_iff a b).mp he
+  rw [h] at this; cases this
+
+example : Spec.unorderedPair (1, Spec.NaN) (1, 0) = true := by decide
 
 /-- exactly one of `a < b`, `a == b`, `b < a` holds -/
 theorem pair_trichotomy {eq1 lt1 : α → α → Bool} {eq2 lt2 : β → β → Bool} (h1 : StrictTotal eq1 lt1)
@@ -190,20 +234,27 @@ theorem pair_lt_trans {eq1 lt1 : α → α → Bool} {eq2 lt2 : β → β → Bo
       refine ⟨?_, h2.trans _ _ _ h g⟩
       rw [he, ge]; exact h1.irrefl _
 
-/-- tuple `==` (arity >= 1, equal arity as the `requires` clause demands) is equality of the element lists -/
-theorem tuple_eq_iff (a b : List Int) (hlen : a.length = b.length) (hne : a ≠ []) :
-    tupleEq (fun x y : Int => x == y) a b = Spec.tupleEq a b := by
-  have h0 : a.length ≠ 0 := by
-    intro h; exact hne (List.length_eq_zero_iff.mp h)
-  have := eqFold_iff (eq := fun x y : Int => x == y) (by intro x y; simp) a b hlen
-  simp only [tupleEq, h0, if_false, Spec.tupleEq]
-  cases h : eqFold (fun x y : Int => x == y) a b with
-  | true => simp [this.mp h]
-  | false =>
-    have : a ≠ b := by intro hab; rw [this.mpr hab] at h; cases h
-    simp [this]
+/-- tuple `==` (equal arity, as the `requires` clause demands; arity 0 included) never fails and is equality of the
+    element lists -/
+theorem tuple_eq_iff (a b : List Int) (hlen : a.length = b.length) :
+    tupleEq (fun x y : Int => x == y) a b = .ok (Spec.tupleEq a b) := by
+  obtain ⟨r, hr, hiff⟩ := eqFold_iff (eq := fun x y : Int => x == y) (by intro x y; simp) a b hlen
+  have hspec : Spec.tupleEq a b = r := by
+    cases r with
+    | true => simp [Spec.tupleEq, hiff.mp rfl]
+    | false =>
+      have : a ≠ b := by intro hab; have := hiff.mpr hab; cases this
+      simp [Spec.tupleEq, this]
+  by_cases h0 : a.length = 0
+  · have ha : a = [] := List.length_eq_zero_iff.mp h0
+    have hb : b = [] := List.length_eq_zero_iff.mp (by omega)
+    subst ha; subst hb
+    simp [tupleEq, Spec.tupleEq]
+  · have hb : ¬ b.length = 0 := by omega
+    simp [tupleEq, hlen, hb, hr, hspec]
 
-example : ([1, 2] : List Int).length = [1, 3].length ∧ ([1, 2] : List Int) ≠ [] := by decide
+example : ([1, 2] : List Int).length = [1, 3].length := by decide
+example : tupleEq (fun x y : Int => x == y) [] [] = .ok true := rfl
 
 end rel
 
@@ -215,70 +266,96 @@ theorem tuple_cat_eq (t : List Int) (ts : List (List Int)) :
     tupleCat (t :: ts) = .ok (Spec.tupleCat (t :: ts)) := by
   simp [tupleCat, catGo_eq, Spec.tupleCat]
 
-/-! ## calls -/
+/-! ## calls
 
-/-- `invoke` performs exactly the call `INVOKE` prescribes (a data-member pointer takes no further arguments) -/
-theorem invoke_eq (f : Callee) (args : List (Option Cat × Int))
-    (h : ∀ o v, f = .memdata o v → args = []) : invoke f args = .ok (Spec.invoke f args) := by
-  cases f with
-  | fn tid => rfl
-  | fob tid c => rfl
-  | memfn tid o => cases o <;> rfl
-  | memdata o v => simp [invoke, Spec.invoke, h o v rfl]
+Stated against the predicate `Spec.CalledOnce` (exactly one log entry; it names the wrapped target, the category
+of the object expression the standard prescribes, and exactly the given arguments; the result is handed back). -/
 
-example : ∀ o v, Callee.fob 4 .r = .memdata o v → [(some Cat.l, (1 : Int))] = [] := by intro o v h; cases h
+/-- `invoke(f, args...)` with a function, function object or member-function pointer: exactly the one call
+    `INVOKE` prescribes — `f` itself with its own value category (`forward<F>(f)`), a member function on the
+    object expression of [func.require] (`t1`, `t1.get()`, `*t1`) — with the arguments unchanged -/
+theorem invoke_once (f : Callee) (args : List Arg) (tid : Nat) (self : Option Cat)
+    (ht : Spec.target? f = some (tid, self)) :
+    ∃ out, invoke f args = .ok out ∧ Spec.CalledOnce tid self args (resultOf tid (args.map (·.2))) out := by
+  refine ⟨Spec.theCall tid self args, ?_, calledOnce_theCall tid self args⟩
+  rw [invoke_spec f args (fun o v he => absurd he (target_not_memdata ht o v)), spec_invoke_target ht]
 
-/-- call-once for every callable kind: the log is exactly one entry — this target, these arguments with their
-    categories — and the result is the target's result -/
-theorem invoke_call_once (f : Callee) (args : List (Option Cat × Int)) (h : ∀ o v, f ≠ .memdata o v) :
-    ∃ tid self, invoke f args = .ok (resultOf tid (args.map (·.2)), [{ tid := tid, self := self, args := args }]) := by
-  cases f with
-  | fn tid => exact ⟨tid, none, rfl⟩
-  | fob tid c => exact ⟨tid, some c, rfl⟩
-  | memfn tid o => exact ⟨tid, some o.expr, rfl⟩
-  | memdata o v => exact absurd rfl (h o v)
+example : Spec.target? (.memfn 5 (.ptr .c)) = some (5, some .c) := rfl
+example : Spec.target? (.fob 4 .k) = some (4, some .k) := rfl
 
-example : ∀ o v, Callee.memfn 5 (.ptr .c) ≠ .memdata o v := by intro o v h; cases h
+/-- a pointer to data member yields the member and calls nothing -/
+theorem invoke_memdata (o : ObjK) (v : Int) : invoke (.memdata o v) [] = .ok (v, []) := rfl
 
-theorem refWrap_eq (tid : Nat) (cst : Bool) (args : List (Option Cat × Int)) :
-    refWrapCall tid cst args = .ok (Spec.refWrapCall tid cst args) := rfl
+/-- `reference_wrapper<T>::operator()`: one call of the referenced object as an lvalue (const for
+    `reference_wrapper<T const>`), arguments unchanged -/
+theorem refWrap_once (tid : Nat) (cst : Bool) (args : List Arg) :
+    ∃ out, refWrapCall tid cst args = .ok out ∧
+      Spec.CalledOnce tid (some (if cst then .c else .l)) args (resultOf tid (args.map (·.2))) out :=
+  ⟨_, refWrap_spec tid cst args, calledOnce_theCall _ _ _⟩
 
-theorem functionRef_eq (callee : Callee) (args : List (Option Cat × Int))
-    (h : ∀ o v, callee = .memdata o v → args = []) :
-    functionRefCall callee args = .ok (Spec.functionRefCall callee args) := by
+/-- `function_ref<R(Args...)>::operator()`: one call of the referenced entity (a function object as an lvalue of
+    the const-ness it was bound with); every parameter arrives as `forward<Args>(args)`: a by-value parameter as
+    an rvalue, a reference parameter unchanged; the values are unchanged -/
+theorem functionRef_once (callee : Callee) (args : List Arg) (tid : Nat) (self : Option Cat)
+    (ht : Spec.frefTarget? callee = some (tid, self)) :
+    ∃ out, functionRefCall callee args = .ok out ∧
+      Spec.CalledOnce tid self (args.map Spec.arrives) (resultOf tid (args.map (·.2))) out := by
+  have hv : (args.map Spec.arrives).map (·.2) = args.map (·.2) := by
+    rw [List.map_map]; apply List.map_congr_left; intro a _; obtain ⟨v, x⟩ := a; cases v <;> rfl
+  have hnm : ∀ o v, callee = .memdata o v → args = [] := by
+    intro o v h; subst h; simp [Spec.frefTarget?, Spec.target?] at ht
+  refine ⟨Spec.theCall tid self (args.map Spec.arrives), ?_, hv ▸ calledOnce_theCall tid self (args.map Spec.arrives)⟩
+  rw [functionRef_spec callee args hnm]
   cases callee with
-  | fn tid => rfl
-  | fob tid c => rfl
-  | memfn tid o => cases o <;> rfl
-  | memdata o v =>
-    have := h o v rfl
-    subst this
-    simp [functionRefCall, Spec.functionRefCall, invoke, Spec.invoke]
+  | memdata o v => simp [Spec.frefTarget?, Spec.target?] at ht
+  | fn t => simp [Spec.functionRefCall, ht]
+  | fob t q => simp [Spec.functionRefCall, ht]
+  | memfn t o => simp [Spec.functionRefCall, ht]
 
-example : ∀ o v, Callee.fob 4 .c = .memdata o v → [((none : Option Cat), (1 : Int))] = [] := by intro o v h; cases h
+example : Spec.frefTarget? (.fob 4 .c) = some (4, some .c) := rfl
+example : Spec.frefTarget? (.fob 4 .r) = some (4, some .l) := rfl
 
-/-- `bind_front(f, bound...)(args...)`: one call of `f`, qualified like the wrapper, bound arguments first -/
-theorem bindFront_eq (mk : Cat → Callee) (q : Cat) (bound : List Int) (args : List (Option Cat × Int))
-    (h : ∀ o v, mk q ≠ .memdata o v) :
-    bindFrontCall mk q bound args = .ok (Spec.bindFrontCall mk q bound args) := by
-  have hi := invoke_eq (mk q) (bound.map (boundArg q) ++ args) (fun o v he => absurd he (h o v))
-  simp only [bindFrontCall, getAll_eq, bind, Except.bind, hi, Spec.bindFrontCall]
-  rfl
+/-- `bind_front(f, bound...)(args...)` called through a `q`-qualified wrapper: one call of `f` qualified like the
+    wrapper; the bound arguments first, each as the `q`-qualified stored object — a plain argument as the stored
+    copy, a `reference_wrapper` argument still as a `reference_wrapper` (not unwrapped) —, then the call arguments
+    unchanged; every read of the bound-argument tuple is in range -/
+theorem bindFront_once (mk : Cat → Callee) (q : Cat) (bound : List Bound) (args : List Arg) (tid : Nat)
+    (self : Option Cat) (ht : Spec.target? (mk q) = some (tid, self)) :
+    ∃ out, bindFrontCall mk q bound args = .ok out ∧
+      Spec.CalledOnce tid self (bound.map (Spec.boundArrives q) ++ args)
+        (resultOf tid (bound.map (·.value) ++ args.map (·.2))) out := by
+  have hv : (bound.map (Spec.boundArrives q) ++ args).map (·.2) = bound.map (·.value) ++ args.map (·.2) := by
+    rw [List.map_append, List.map_map]; congr 1
+    apply List.map_congr_left; intro b _; cases b <;> rfl
+  refine ⟨Spec.theCall tid self (bound.map (Spec.boundArrives q) ++ args), ?_, hv ▸ calledOnce_theCall tid self _⟩
+  rw [bindFront_spec mk q bound args (target_not_memdata ht), Spec.bindFrontCall, spec_invoke_target ht]
 
-example : ∀ o v, (fun q => Callee.fob 6 q) Cat.k ≠ .memdata o v := by intro o v h; cases h
+example : Spec.target? ((fun q => Callee.fob 6 q) Cat.k) = some (6, some .k) := rfl
 
-theorem notFn_eq (tid : Nat) (q : Cat) (pred : Bool) (args : List (Option Cat × Int)) :
-    notFnCall tid q pred args = .ok (Spec.notFnCall tid q pred args) := rfl
+/-- `not_fn(f)(args...)` called through a `q`-qualified wrapper: one call of `f` qualified like the wrapper,
+    arguments unchanged; the result is the negation of what `f` returned -/
+theorem notFn_once (tid : Nat) (q : Cat) (pred : Bool) (args : List Arg) :
+    ∃ out, notFnCall tid q pred args = .ok out ∧ Spec.CalledOnce tid (some q) args (!pred) out :=
+  ⟨_, notFn_spec tid q pred args,
+    ⟨rfl, by intro c hc; simp [Spec.notFnCall] at hc; subst hc; exact ⟨rfl, rfl, rfl⟩, rfl⟩⟩
 
-/-- `apply(f, t)`: one call of `f` with all elements of `t` in order, each with the tuple's category -/
-theorem apply_eq (f : Callee) (tc : Cat) (t : List Int) (h : ∀ o v, f ≠ .memdata o v) :
-    apply f tc t = .ok (Spec.apply f tc t) := by
-  have hi := invoke_eq f (t.map (boundArg tc)) (fun o v he => absurd he (h o v))
-  simp only [apply, getAll_eq, bind, Except.bind, hi, Spec.apply]
-  rfl
+/-- `apply(f, t)`: one call of `f` (with its own category) with all elements of `t` in order, each with the
+    tuple's category; every element read is in range -/
+theorem apply_once (f : Callee) (tc : Cat) (t : List Int) (tid : Nat) (self : Option Cat)
+    (ht : Spec.target? f = some (tid, self)) :
+    ∃ out, apply f tc t = .ok out ∧
+      Spec.CalledOnce tid self (t.map (fun v => (Via.fwd tc, v))) (resultOf tid t) out := by
+  have hv : (t.map (fun v => ((Via.fwd tc, v) : Arg))).map (·.2) = t := by
+    rw [List.map_map]; simp [Function.comp_def]
+  have := calledOnce_theCall tid self (t.map (fun v => ((Via.fwd tc, v) : Arg)))
+  rw [hv] at this
+  refine ⟨Spec.theCall tid self (t.map (fun v => (Via.fwd tc, v))), ?_, this⟩
+  rw [apply_spec f tc t (target_not_memdata ht), Spec.apply, spec_invoke_target ht]
 
-example : ∀ o v, Callee.fob 7 .l ≠ .memdata o v := by intro o v h; cases h
+example : Spec.target? (.fob 7 .r) = some (7, some .r) := rfl
 
+/-- `make_from_tuple<T>(t)` hands all elements, in order, to the constructor; no read leaves the tuple
+    (bookkeeping: it IS the index-sequence expansion `getAll`) -/
 theorem makeFromTuple_eq (t : List Int) : makeFromTuple t = .ok t := getAll_eq t
 
 /-! ## inplace_function -/
